@@ -11,12 +11,27 @@ Contents
 * A, B — identifiers and torus laws (index bijection, the constructor enumerates the identifiers, nearby /
   neighbour = index arithmetic mod n, symmetric, reflexive).  They hold for EVERY scalar type, every float
   stepper and every fuel, i.e. also for the binary64 reading the driver runs: they only concern identifiers.
-* C — positions in the exact reading (`ℚ`): partition of the box, `relative_cell` / `translate` as
-  `(c ∓ r) mod n`, mutual inverses, translation invariance of nearby.  Hypotheses `Geo` / `GeoIdeal` describe
-  the recorded extents (within `side/8` of / equal to the ideal `[i·side, (i+1)·side]`); they are NOT derived
-  from the constructor, whose float stepping has no exact-reading counterpart — part D is the bridge.
-* D — rounding-abstract reading of the stepping loops (`extent_sound`, `cells_abut`), any scalar type.
-* E — binary64 counterexamples (finding F2: the top of the box is not covered), kernel-evaluated on `Float`.
+* C — positions in the exact reading (`ℚ`): partition of the box, `position_to_cell` is total on the closed box the
+  assertion admits, `relative_cell` / `translate` as `(c ∓ r) mod n`, mutual inverses, translation invariance of
+  nearby.  Hypotheses `Geo` / `GeoIdeal` describe the recorded extents (within `side/8` of / equal to the ideal
+  `[i·side, (i+1)·side]`); they are NOT derived from the constructor, whose float stepping has no exact-reading
+  counterpart — part D is the bridge.
+* D — rounding-abstract reading of the stepping loops (`extent_sound`, `cells_abut`, `last_cell_reaches_top`,
+  `position_in_recorded_extent`), any scalar type.
+* E — binary64: the top of the box is covered, kernel-evaluated on `Float` on the witnesses of the former finding F2.
+
+Historical note (finding F2, repaired).  Until the repair of `cuboid_cells.py`, `position_to_cell` and the stepping
+loops of the constructor used the raw quotient `int(p / side)`.  For the top floats of the box (`p = nextafter(L, 0)`,
+cell counts 3, 6, 7, 9, 12, …) the binary64 quotient rounds up to `n`: the position was looked up in a wrong cell or
+raised `IndexError`, and the stepping ended the last cell's `cell_max` below `nextafter(L, 0)`, so the recorded extents
+did not cover `[0, L)`.  Part E then held the counterexample theorems `float_digit_overflow`,
+`float_position_in_wrong_cell`, `float_position_index_error`, `float_last_cell_max_below_top`, and `extent_sound`
+could only speak about the raw digit (extents never covered a scalar of raw digit `n`).  The repair introduced
+`CuboidCells._cell_identifier` (`min(int(p / side), n - 1)`, model `cellDigit`) for `position_to_cell` and the stepping
+loops, and bounds the upper stepping by the system length (the last `cell_max` is the largest float below `L`).
+`float_digit_overflow` is kept as the fact that the raw quotient still overflows (the clamp is live); the other three
+are replaced by the positive facts `float_position_in_last_cell`, `float_corner_position_in_last_cell`,
+`float_last_cell_max_is_top` on the same witnesses.
 -/
 namespace JF.C16
 open JF JF.Cells
@@ -38,6 +53,7 @@ example : Valid [3, 5, 7] [2, 4, 6] ∧ flat [3, 5, 7] [2, 4, 6] = 104 ∧ numbe
 section anyScalar
 variable {α : Type} [Add α] [Sub α] [Mul α] [Div α] [Neg α] [LT α] [DecidableLT α] [LE α] [DecidableLE α] [BEq α]
 
+omit [Add α] [Sub α] [Neg α] in
 /-- **the constructor enumerates the identifiers**: whenever `CuboidCells.__init__` succeeds (any scalar
 type, any stepping functions), there are exactly `Π n_d` cells, cell number `k` carries a valid identifier
 whose list index is `k` (so the constructor's own `assert` can never fire), and every valid identifier is
@@ -276,7 +292,7 @@ section exact
 variable {s : System ℚ}
 
 private theorem positionToCell_eq (pos : List ℚ) (h : assertInBox s.lengths pos = true) :
-    positionToCell Ops.rat s pos = cellOfIdent s (posIdent s.side pos) := by
+    positionToCell Ops.rat s pos = cellOfIdent s (posIdent s.side s.perSide pos) := by
   unfold positionToCell
   unfold assertInBox at h
   simp only [h, Bool.not_true, Bool.false_eq_true, if_false]
@@ -296,6 +312,23 @@ theorem partition (w : WF s) (g : GeoIdeal s) (p : List ℚ) (hb : InBox s.lengt
   · intro k' hk' hcont
     have := (hc _ _ _ (g.ext k' hk') (w.ident k' hk').1).mp hcont
     exact ident_inj w k' k hk' hk (by rw [this, hid])
+
+/-- **position_to_cell is total on the closed box**: every position the assertion of `position_to_cell` admits
+(`0 ≤ p_d ≤ L_d`, the system length itself included) is mapped to a cell of the system — no `IndexError`, no lookup
+through a negative or wrapped index (`_cell_identifier` clamps the digit to `n_d − 1`). -/
+theorem position_to_cell_total (w : WF s) (dir : DirOK s.perSide s.side s.lengths) (p : List ℚ)
+    (hb : InClosedBox s.lengths p) :
+    ∃ k, ∃ hk : k < s.cells.size, positionToCell Ops.rat s p = .ok s.cells[k] ∧
+      s.cells[k].ident = posIdent s.side s.perSide p ∧ Valid s.perSide s.cells[k].ident := by
+  obtain ⟨ha, hv⟩ := posIdent_valid_closed dir hb
+  obtain ⟨k, hk, _, hlook, hid⟩ := cellOfIdent_valid w hv
+  exact ⟨k, hk, by rw [positionToCell_eq p ha, hlook], hid, by rw [hid]; exact hv⟩
+
+/-- the system length itself is mapped to the last cell of its direction -/
+theorem system_length_in_last_cell {side : ℚ} {n : ℤ} (hs : 0 < side) :
+    cellDigit Ops.rat side n (n * side) = n - 1 := cellDigit_rat_top hs
+
+example : InClosedBox [1, 2] [1, 2] ∧ ¬ InBox [1, 2] [1, 2] := by simp [InClosedBox, InBox]
 
 /-- **relative_spec**: `relative_cell(c, r)` never fails and returns the cell with identifier `(c − r) mod n` -/
 theorem relative_spec (w : WF s) (g : Geo s) (k r : Nat) (hk : k < s.cells.size) (hr : r < s.cells.size) :
@@ -407,92 +440,163 @@ end exact
 /-! ## D. the float-stepping loops, rounding-abstract reading -/
 
 section stepping
-variable {α : Type} [Mul α] [Div α] [LT α] [DecidableLT α] [BEq α]
+variable {α : Type} [Mul α] [Div α] [LT α] [DecidableLT α] [LE α] [DecidableLE α] [BEq α]
 
-/-- **extent_sound**: for any scalar type and any mutually inverse stepping functions along which
-`int(x / side)` is monotone and changes by at most one per step (`StepLaws`; true of binary64 as long as a cell
-is wider than an ulp), the loops of `CuboidCells.__init__`, when they terminate, return the two ends of the
-maximal run of consecutive scalars that `position_to_cell` sends to index `i`:
-`int(max/side) = i`, `int(next_up(max)/side) = i + 1`, `int(min/side) = i`, `int(next_down(min)/side) = i − 1`
-(`min` of the first cell is the literal `0·side`).  In particular, under `StepLaws`, the recorded extents can
-never cover a scalar whose digit is `n`: this is how finding F2 shows up in the extents. -/
-theorem extent_sound (o : Ops α) (st : Stepper α) (fuel : Nat) (side : α) (i : Int) (laws : StepLaws o st side) :
-    (∀ u, i ≤ digit o side (o.ofInt (i + 1) * side) → upperPos o st fuel side i = .ok u →
-        digit o side u = i ∧ digit o side (st.up u) = i + 1) ∧
-    (∀ l, o.ofInt 0 < o.ofInt i * side → digit o side (o.ofInt i * side) ≤ i → lowerPos o st fuel side i = .ok l →
-        digit o side l = i ∧ digit o side (st.down l) = i - 1) ∧
-    (¬ (o.ofInt 0 < o.ofInt i * side) → lowerPos o st fuel side i = .ok (o.ofInt i * side)) :=
-  ⟨fun u hs h => upperPos_sound o st fuel side i laws hs u h,
-   fun l hp hs h => lowerPos_sound o st fuel side i laws hp hs l h,
-   fun hp => lowerPos_origin o st fuel side i hp⟩
+/-- **extent_sound**: for any scalar type and any mutually inverse stepping functions along which the cell digit
+`_cell_identifier(x) = min(int(x / side), n − 1)` is monotone and changes by at most one per step, and for which the
+largest scalar below the system length has digit `n − 1` (`StepLaws`; true of binary64 as long as a cell is wider than
+an ulp), the loops of `CuboidCells.__init__`, when they terminate, return for every cell `i < n` the two ends of the
+maximal run of consecutive scalars below the system length that `position_to_cell` sends to index `i`:
+`max < L`, `digit(max) = i`, and `next_up(max) < L ∧ digit(next_up(max)) = i + 1` for an inner cell resp.
+`next_up(max) ≥ L` for the last cell (**its `cell_max` is the largest scalar below the system length**);
+`digit(min) = i`, `digit(next_down(min)) = i − 1` (`min` of the first cell is the literal `0·side`). -/
+theorem extent_sound (o : Ops α) (st : Stepper α) (fuel : Nat) (side : α) (n : Int) (len : α) (i : Int)
+    (laws : StepLaws o st side n len) :
+    (∀ u, i < n → (len ≤ o.ofInt (i + 1) * side ∨ i ≤ cellDigit o side n (o.ofInt (i + 1) * side)) →
+        upperPos o st fuel side n len i = .ok u →
+        u < len ∧ cellDigit o side n u = i ∧
+          (i + 1 < n → st.up u < len ∧ cellDigit o side n (st.up u) = i + 1) ∧ (i + 1 = n → len ≤ st.up u)) ∧
+    (∀ l, o.ofInt 0 < o.ofInt i * side → cellDigit o side n (o.ofInt i * side) ≤ i → lowerPos o st fuel side n i = .ok l →
+        cellDigit o side n l = i ∧ cellDigit o side n (st.down l) = i - 1) ∧
+    (¬ (o.ofInt 0 < o.ofInt i * side) → lowerPos o st fuel side n i = .ok (o.ofInt i * side)) :=
+  ⟨fun u hi hs h => upperPos_sound o st fuel side n len i laws hi hs u h,
+   fun l hp hs h => lowerPos_sound o st fuel side n len i laws hp hs l h,
+   fun hp => lowerPos_origin o st fuel side n i hp⟩
 
 /-- **cells abut**: under the order laws of the scalars (`OrderLaws`: total order, `up x` is the successor of
-`x`, the digit is monotone), the scalar following `cell_max` of cell `i` is exactly `cell_min` of cell `i+1`
+`x`, the cell digit is monotone), the scalar following `cell_max` of cell `i` is exactly `cell_min` of cell `i+1`
 (both as characterised by `extent_sound`): consecutive cells neither overlap nor leave a scalar out. -/
-theorem cells_abut {α : Type} [Div α] [LT α] [LE α] (o : Ops α) (st : Stepper α) (side : α)
-    (laws : OrderLaws o st side) (i : Int) (u l : α)
-    (hu : digit o side u = i) (hu' : digit o side (st.up u) = i + 1)
-    (hl : digit o side l = i + 1) (hl' : digit o side (st.down l) = i) : st.up u = l :=
-  extents_abut o st side laws i u l hu hu' hl hl'
+theorem cells_abut {α : Type} [Div α] [LT α] [LE α] (o : Ops α) (st : Stepper α) (side : α) (n : Int)
+    (laws : OrderLaws o st side n) (i : Int) (u l : α)
+    (hu : cellDigit o side n u = i) (hu' : cellDigit o side n (st.up u) = i + 1)
+    (hl : cellDigit o side n l = i + 1) (hl' : cellDigit o side n (st.down l) = i) : st.up u = l :=
+  extents_abut o st side n laws i u l hu hu' hl hl'
 
-/-- non-vacuity of `StepLaws`: a fixed-point grid of spacing `δ ≤ side` over `ℚ` -/
-example : StepLaws Ops.rat ⟨(· + 1/16), (· - 1/16)⟩ (1/2) := stepLaws_grid (1/2) (1/16) (by norm_num) (by norm_num) (by norm_num)
+/-- **the last cell reaches the top of the box**: with `cell_max = u` of the last cell as characterised by
+`extent_sound` (`next_up(u) ≥ L`), every scalar below the system length is `≤ u`: the recorded extents leave no scalar
+of `[0, L)` out at the top. -/
+theorem last_cell_reaches_top {α : Type} [Div α] [LT α] [LE α] (o : Ops α) (st : Stepper α) (side : α) (n : Int)
+    (laws : OrderLaws o st side n) (lin : LinearLaws α) (len u x : α) (hu : len ≤ st.up u) (hx : ¬ len ≤ x) : x ≤ u :=
+  (laws.total x u).elim id fun h => absurd (lin.trans _ _ _ hu (laws.succ _ _ h)) hx
 
-/-- non-vacuity: fixed-point scalars (`ℤ`, unit = one grid step), `int(x / side)` = floor division -/
+/-- **a position lies in the recorded extent of the cell `position_to_cell` maps it to**: for a scalar `x` below the
+system length with `_cell_identifier(x) = j`, and `lo`, `hi` the recorded `cell_min`, `cell_max` of cell `j` as
+characterised by `extent_sound` (the first cell's `cell_min` is only known to be the origin: `lo ≤ x` is then the
+hypothesis `0 ≤ x`), `lo ≤ x ≤ hi`. -/
+theorem position_in_recorded_extent {α : Type} [Div α] [LT α] [LE α] (o : Ops α) (st : Stepper α) (side : α)
+    (n : Int) (laws : OrderLaws o st side n) (lin : LinearLaws α) (len : α) (j : Int) (lo hi x : α)
+    (hx : cellDigit o side n x = j) (hxl : ¬ len ≤ x)
+    (hlo : lo ≤ x ∨ cellDigit o side n (st.down lo) = j - 1)
+    (hhi : j + 1 < n → cellDigit o side n (st.up hi) = j + 1) (hhi' : ¬ j + 1 < n → len ≤ st.up hi) :
+    lo ≤ x ∧ x ≤ hi :=
+  ⟨hlo.elim id (cellMin_le_position o st side n laws lin j lo x hx),
+   position_le_cellMax o st side n laws lin len j hi x hx hxl hhi hhi'⟩
+
+/-- non-vacuity of `StepLaws`: a fixed-point grid of spacing `δ ≤ side` over `ℚ` (2 cells of side 1/2, length 1) -/
+example : StepLaws Ops.rat ⟨(· + 1/16), (· - 1/16)⟩ (1/2) 2 ((2 : ℤ) * (1/2)) :=
+  stepLaws_grid (1/2) (1/16) 2 (by norm_num) (by norm_num) (by norm_num)
+
+/-- non-vacuity: fixed-point scalars (`ℤ`, unit = one grid step), `int(x / side)` = floor division, `n` cells -/
 private def fixOps : Ops Int := ⟨id, id, fun x y => x % y, id, fun _ => false, fun _ => 0, id⟩
-example (side : Int) (hs : 1 ≤ side) :
-    OrderLaws fixOps ⟨(· + 1), (· - 1)⟩ side ∧ StepLaws fixOps ⟨(· + 1), (· - 1)⟩ side := by
+example (side n : Int) (hs : 1 ≤ side) :
+    OrderLaws fixOps ⟨(· + 1), (· - 1)⟩ side n ∧ StepLaws fixOps ⟨(· + 1), (· - 1)⟩ side n (n * side) ∧
+      LinearLaws Int := by
+  have dmono : ∀ x y : Int, x ≤ y → cellDigit fixOps side n x ≤ cellDigit fixOps side n y := by
+    intro x y h
+    have : x / side ≤ y / side := Int.ediv_le_ediv (by omega) h
+    show min (x / side) (n - 1) ≤ min (y / side) (n - 1)
+    omega
   refine ⟨⟨fun x y => by omega, fun x y h1 h2 => by omega, fun x y h => by show x + 1 ≤ y; omega,
-    fun x => by show x - 1 + 1 = x; omega, fun x y h => Int.ediv_le_ediv (by omega) h⟩,
+    fun x => by show x - 1 + 1 = x; omega, dmono⟩,
     ⟨fun x => by show x - 1 + 1 = x; omega, fun x => by show x + 1 - 1 = x; omega,
-     fun x => Int.ediv_le_ediv (by omega) (by show x - 1 ≤ x; omega), ?_⟩⟩
-  intro x
-  show x / side ≤ (x - 1) / side + 1
-  have : (x - 1) / side + 1 = (x - 1 + 1 * side) / side := (Int.add_mul_ediv_right _ _ (by omega)).symm
-  rw [this]
-  exact Int.ediv_le_ediv (by omega) (by omega)
+     fun x => dmono _ _ (by show x - 1 ≤ x; omega), ?_, fun x => by omega, fun x h => by show ¬ n * side ≤ x - 1; omega,
+     ?_⟩, ⟨fun x y z => Int.le_trans, fun x y h => by omega⟩⟩
+  · intro x
+    have : x / side ≤ (x - 1) / side + 1 := by
+      have : (x - 1) / side + 1 = (x - 1 + 1 * side) / side := (Int.add_mul_ediv_right _ _ (by omega)).symm
+      rw [this]
+      exact Int.ediv_le_ediv (by omega) (by omega)
+    show min (x / side) (n - 1) ≤ min ((x - 1) / side) (n - 1) + 1
+    omega
+  · intro x h _
+    have : n - 1 ≤ (x - 1) / side := by
+      have e : n - 1 = ((n - 1) * side) / side := (Int.mul_ediv_cancel _ (by omega)).symm
+      rw [e]
+      apply Int.ediv_le_ediv (by omega)
+      have : (n - 1) * side = n * side - side := by rw [Int.sub_mul]; omega
+      omega
+    show min ((x - 1) / side) (n - 1) = n - 1
+    omega
 
 end stepping
 
-/-! ## E. binary64: the top of the box is not covered (finding F2), proved on native `Float` by kernel evaluation -/
+/-! ## E. binary64: the top of the box is covered (witnesses of the former finding F2), proved on native `Float` by
+kernel evaluation -/
 
 /-- the largest float below 1.0 -/
 def belowOne : Float := Float.ofBits 0x3FEFFFFFFFFFFFFF
 
-/-- `int(p / (1/3)) = 3` for `p = 1 − 2⁻⁵³`: the digit leaves `range(3)` although `0 ≤ p < L = 1`
-(likewise for 6, 7, 9, 12 cells per side) -/
+/-- the raw quotient still overflows: `int(p / (1/3)) = 3` for `p = 1 − 2⁻⁵³` although `0 ≤ p < L = 1` (likewise for
+6, 7, 9, 12 cells per side) — the clamp of `_cell_identifier` is live: it returns `n − 1` there -/
 theorem float_digit_overflow :
-    [3, 6, 7, 9, 12].all (fun n => digit Ops.float ((1.0 : Float) / Ops.float.ofInt n) belowOne == n) = true := by
+    [3, 6, 7, 9, 12].all (fun n =>
+      digit Ops.float ((1.0 : Float) / Ops.float.ofInt n) belowOne == n &&
+      cellDigit Ops.float ((1.0 : Float) / Ops.float.ofInt n) n belowOne == n - 1) = true := by
   decide +kernel
 
-/-- on the 3×5×7 grid of the unit box, `position_to_cell((1 − 2⁻⁵³, 0.1, 0.1))` returns cell `(0, 1, 0)`, whose
-`cell_max[0]` is below the position: the position is in the box but not in the extent of its cell -/
-theorem float_position_in_wrong_cell :
+/-- `cell_min[d] <= p[d] <= cell_max[d]` in every direction -/
+def cellContains (c : Cell Float) (p : List Float) : Bool :=
+  (zipWith3' (fun lo hi x => decide (lo ≤ x) && decide (x ≤ hi)) c.cmin c.cmax p).all id && c.cmin.length == p.length
+
+/-- on the 3×5×7 grid of the unit box, `position_to_cell((1 − 2⁻⁵³, 0.1, 0.1))` returns cell `(2, 0, 0)`, whose
+recorded extent contains the position (before the repair: cell `(0, 1, 0)`, not containing it) -/
+theorem float_position_in_last_cell :
     (match create Ops.float Stepper.float 1000 true [1.0, 1.0, 1.0] [3, 5, 7] 1 with
      | .ok s =>
        (match positionToCell Ops.float s [belowOne, 0.1, 0.1] with
-        | .ok c => c.ident == [0, 1, 0] && decide (c.cmax.getD 0 0.0 < belowOne)
+        | .ok c => c.ident == [2, 0, 0] && cellContains c [belowOne, 0.1, 0.1]
         | .error _ => false)
      | .error _ => false) = true := by
   decide +kernel
 
-/-- … and `position_to_cell((1 − 2⁻⁵³,)*3)` raises `IndexError` -/
-theorem float_position_index_error :
+/-- … and `position_to_cell((1 − 2⁻⁵³,)*3)` returns the last cell `(2, 4, 6)`, whose recorded extent contains the
+position (before the repair: `IndexError`) -/
+theorem float_corner_position_in_last_cell :
     (match create Ops.float Stepper.float 1000 true [1.0, 1.0, 1.0] [3, 5, 7] 1 with
      | .ok s =>
        (match positionToCell Ops.float s [belowOne, belowOne, belowOne] with
-        | .ok _ => false
-        | .error e => e == "IndexError")
+        | .ok c => c.ident == [2, 4, 6] && cellContains c [belowOne, belowOne, belowOne]
+        | .error _ => false)
      | .error _ => false) = true := by
   decide +kernel
 
-/-- the constructor's stepping ends the last cell of direction 0 at `1 − 2⁻⁵²`: the recorded extents do not
-cover `1 − 2⁻⁵³ ∈ [0, 1)` -/
-theorem float_last_cell_max_below_top :
+/-- the constructor's stepping ends the last cell of every direction at `1 − 2⁻⁵³`, the largest float below the system
+length, and every other cell below it: the recorded extents cover the top of `[0, 1)` (before the repair the last cell
+of direction 0 ended at `1 − 2⁻⁵²`) -/
+theorem float_last_cell_max_is_top :
     (match create Ops.float Stepper.float 1000 true [1.0, 1.0, 1.0] [3, 5, 7] 1 with
-     | .ok s => s.cells.toList.all (fun c => decide (c.cmax.getD 0 0.0 < belowOne)) &&
-                (s.cells.toList.map (fun c => (c.cmax.getD 0 0.0).toBits)).contains 0x3FEFFFFFFFFFFFFE
+     | .ok s => s.cells.toList.all (fun c =>
+         (zipWith3' (fun (i n : Int) (hi : Float) =>
+            if i + 1 == n then hi.toBits == 0x3FEFFFFFFFFFFFFF else decide (hi < belowOne)) c.ident s.perSide c.cmax).all id)
      | .error _ => false) = true := by
+  decide +kernel
+
+/-- one direction of the unit box with `n = 1 … 12` cells: the first cell starts at `0.0`, the float following each
+`cell_max` is the next cell's `cell_min`, the last `cell_max` is `1 − 2⁻⁵³`, and `position_to_cell` maps every recorded
+`cell_min` / `cell_max` to its own cell -/
+theorem float_unit_box_tiled :
+    (List.range 12).all (fun k =>
+      match create Ops.float Stepper.float 1000 false [1.0] [(k : Int) + 1] 1 with
+      | .ok s =>
+        let cs := s.cells.toList
+        (cs.head?.map (fun c => c.cmin.map Float.toBits)) == some [0] &&
+        (cs.getLast?.map (fun c => c.cmax.map Float.toBits)) == some [0x3FEFFFFFFFFFFFFF] &&
+        (List.zipWith (fun (a b : Cell Float) => (a.cmax.map (fun x => (fNextUp x).toBits)) == b.cmin.map Float.toBits)
+          cs cs.tail).all id &&
+        cs.all (fun c =>
+          (match positionToCell Ops.float s c.cmin with | .ok c' => c'.ident == c.ident | .error _ => false) &&
+          (match positionToCell Ops.float s c.cmax with | .ok c' => c'.ident == c.ident | .error _ => false))
+      | .error _ => false) = true := by
   decide +kernel
 
 end JF.C16
